@@ -54,6 +54,9 @@ CFG = {
         K(1, "cs", "s", own=True),                  # Clone/Drop accounting in the middle of a program
         K(3, "mt"),                                 # capacity that is not a power of two; send_many then try_send
         K(1, "m", nodrop=(1,), stop=True),          # send_many; a handle kept alive: only stop() ends the stream
+        K(1, "ss", cancel=1),                       # the pending recv() future is dropped at its await, recv() called again
+        K(1, "s", stop=True, cancel=1),             # ... with stop() racing
+        K(1, "s", ncons=2),                         # two consumers on one track (recv takes &self)
         # pipeline.rs: SampleQueueSender / ChannelMediaSource (same ring, own recv loop, Receiver::drop closes)
         K(1, "ss", chan=True),
         K(1, "s", "t", chan=True),                  # two threads on one Sync sender
@@ -70,11 +73,17 @@ CFG = {
         K(1, "s", "s", "s"),                        # three producer threads (544 k edges)
         K(2, "ms", "t", nodrop=(2,)),
         K(3, "sss", "t", own=True),                 # four samples through a capacity-3 ring
+        K(1, "ss", cancel=1), K(1, "s", stop=True, cancel=1), K(1, "s", ncons=2), K(1, "ss", chan=True, cancel=1),
+        K(2, "st", stop=True, cancel=1), K(1, "s", ncons=2, cancel=1),
+        K(2, "m", "m"),                             # two send_many calls interleaved sample by sample
+        K(4, "mm", "t"),                            # capacity 4; a consumer sees the first half of a send_many
     ],
     # model-checked only (safety + liveness), too large to replay edge by edge within the thorough budget
     "thorough_mc_only": [
         K(1, "m", "t", stop=True), K(3, "sss", "s", own=True), K(2, "st", "cs", own=True, stop=True),
         K(2, "sm", "ts", nodrop=(1,), stop=True), K(3, "sss", "ss"),
+        K(4, "m", "s", "t"), K(4, "s", "s", "s", own=True),                 # capacity 4, three producer threads
+        K(1, "s", "s", ncons=2), K(1, "s", ncons=2, cancel=1, stop=True), K(2, "ss", ncons=2, cancel=1),
     ],
 }
 
@@ -684,11 +693,14 @@ def run(tier):
     shards = 6 if tier == "thorough" else 4
     cfgs = CFG[tier]
     t0 = time.time()
-    live_cfgs = [k for k in cfgs if (len(k["p1"]) + len(k["p2"]) + len(k["p3"]) <= 3) or tier == "thorough"]
+    # liveness (TLC's slowest mode): every configuration in thorough, a representative subset in quick
+    quick_live = {label_of(k) for k in (K(1, ""), K(1, "ss"), K(2, "st", stop=True), K(1, "s", "s"), K(1, "ss", cancel=1),
+                                        K(1, "s", ncons=2), K(1, "ss", chan=True), K(2, "st", chan=True, cmax=1))}
+    live_cfgs = [k for k in cfgs if tier == "thorough" or label_of(k) in quick_live]
     # biggest configurations first; everything (TLC safety+edges -> replay, TLC liveness, probes) shares one pool
     # configurations run in worker processes (building the schedules is CPU-bound Python), the rest in threads
     # at most ~5 JVMs at a time (each <= 1-2 GB), replay shards are a few MB each: a whole run stays under ~4 GB RSS
-    with cf.ThreadPoolExecutor(max_workers=3 if tier == "quick" else 2) as ex, \
+    with cf.ThreadPoolExecutor(max_workers=4 if tier == "quick" else 2) as ex, \
             cf.ProcessPoolExecutor(max_workers=4 if tier == "quick" else 3) as px:
         order = sorted(cfgs, key=lambda k: -(len(k["p1"]) + len(k["p2"]) + len(k["p3"]) + (2 if k["stop"] else 0)))
         futs = {label_of(k): px.submit(one_config, DirOnly(ck.dir), k, tier, shards) for k in order}
@@ -844,7 +856,9 @@ def selftest():
           "NV_EosByStopEarly": K(2, "st", stop=True), "NV_PermitPath": K(1, "ss"), "NV_GenerationPath": K(1, "ss"),
           "NV_RecheckNonEmpty": K(1, "s", "s"), "NV_RingDropFrees": K(2, "st", stop=True),
           "NV_DropNotLast": K(1, "sc", "s", own=True), "NV_ArcNotLast": K(1, "s", "s"), "NV_LockContended": K(1, "s", "s"),
-          "NV_ConsumerBlocked": K(1, "ss")}
+          "NV_ConsumerBlocked": K(1, "ss"), "NV_CancelForwards": K(1, "ss", cancel=1),
+          "NV_CancelRegistered": K(1, "ss", cancel=1), "NV_TwoWaiters": K(1, "s", ncons=2),
+          "NV_OtherTookIt": K(1, "s", ncons=2), "NV_PartialMany": K(2, "m")}
 
     def one(name, k, expect_violation):
         cfg = os.path.join(vlib.SPEC, f"MC_Ring_{name}_{label_of(k)}.{os.getpid()}.gen.cfg")
